@@ -258,6 +258,8 @@ def _case(draw, tier):
         offs.append(cur)
     msgs = [[o, draw(st.one_of(st.sampled_from([8, 8, 26, 25, 7, 36, 29]), st.sampled_from(types)))] for o in offs]
     case = {"K": K, "noise": draw(st.integers(0, 3)) == 0, "msgs": msgs}
+    if draw(st.integers(0, 2)) == 0:
+        case["login"] = False  # a session established without the login exchange (the default of connect()) is a session too
     if draw(st.booleans()):
         case["subscribe"] = sorted(set(draw(st.lists(st.sampled_from([8, 26, 25, 29] + types[:10]), max_size=3))))
     if draw(st.integers(0, 4)) == 0:
@@ -289,6 +291,9 @@ def enumerated(tier):
         msgs = [[64 * i + 33 if (64 * i + 33) % 2 else 64 * i + 32 + 1, 8] for i in range(nslots) if pat >> i & 1]
         yield {"K": 2.0, "noise": pat % 3 == 0, "msgs": msgs, "pauses": [[2 * (pat % 97), 2 * (pat % 97) + 64 * (1 + pat % 11)]]}
     yield {"K": 2.0, "noise": False, "msgs": [], "pauses": [[2, 20 * 128]]}
+    for pat in (0, 5, 37, 301, 682):
+        msgs = [[64 * i + 33 if (64 * i + 33) % 2 else 64 * i + 32 + 1, 8] for i in range(nslots) if pat >> i & 1]
+        yield {"K": 2.0, "noise": pat % 2 == 1, "msgs": msgs, "login": False}
     # requests timing out inside the pong window of the first / a later ping
     for off in (130, 200, 300, 400, 600):
         for tmo in (20, 64, 128, 250):
